@@ -10,36 +10,40 @@ From SV Require Import Lib.Base Fam.Schema C01.Marshal C01.Guard C01.MarshalProo
 Lemma set_ns_same ns nm ats t ks : set_ns ns (XN ns nm ats t ks) = XN ns nm ats t ks.
 Proof. reflexivity. Qed.
 
-(* a fitting, non-list, non-None value is written as exactly one element,
-   the one the reference prescribes; setPrefix leaves it in its namespace *)
-Lemma mkheader_ok_l S xstq d v :
-  entry_ok S d v = true ->
-  exists n, ref_elem S xstq d false v = Some [n] /\
-            mkheader_setprefix S xstq d v = HOk n /\
-            xname n = e_name d /\ xnsid n = elem_ns d.
+Lemma set_ns_id ns n : xnsid n = ns -> set_ns ns n = n.
+Proof. destruct n. cbn. intro H. subst. reflexivity. Qed.
+
+Lemma map_set_ns_id ns l : Forall (fun n => xnsid n = ns) l -> map (set_ns ns) l = l.
 Proof.
-  unfold entry_ok. intro H.
-  apply andb_true_iff in H as [H Hnn]. apply andb_true_iff in H as [Hc Hnl].
-  destruct (marshal_conforms_l S xstq v d false Hc) as [ns [Hr Hm]].
-  unfold mkheader_setprefix. rewrite Hm. cbn [of_mres].
-  destruct v as [|t|l|ty fs]; try discriminate.
-  - (* text *)
-    cbn in Hr. inversion Hr; subst ns. cbn [is_list].
-    eexists. split; [reflexivity|]. split; [|split]; reflexivity.
-  - (* object *)
-    rewrite ref_elem_obj in Hr |- *.
-    destruct (real_type S d ty); [|discriminate].
-    destruct (decls_of _ _); [|discriminate].
-    inversion Hr; subst ns. cbn [is_list].
-    eexists. split; [reflexivity|]. split; [|split]; reflexivity.
+  induction 1 as [|x l Hx _ IH]; [reflexivity|]. cbn. rewrite (set_ns_id ns x Hx), IH. reflexivity.
 Qed.
 
-Lemma ref_entry_ok S xstq d v n :
-  entry_ok S d v = true -> ref_elem S xstq d false v = Some [n] -> ref_entry S xstq d v = Some [n].
+(* a fitting value — a plain value, None, or a list of fitting items that are
+   not lists themselves — adds exactly the elements the reference prescribes
+   (one per item for a list); setPrefix leaves each in the part's namespace *)
+Lemma add_entry_ok_l S xstq d v :
+  entry_ok S d v = true ->
+  exists ns, ref_elem S xstq d false v = Some ns /\
+             add_entry S xstq d v = HOk ns /\
+             Forall (fun n => xname n = e_name d /\ xnsid n = elem_ns d) ns.
 Proof.
-  unfold entry_ok, ref_entry. intros H Hr.
-  apply andb_true_iff in H as [H Hnn]. apply andb_true_iff in H as [Hc Hnl].
-  rewrite Hc. cbn [negb]. destruct v; try discriminate; exact Hr.
+  unfold entry_ok. intro H. apply andb_true_iff in H as [Hc Hnl].
+  destruct (marshal_conforms_l S xstq v d false Hc) as [ns [Hr Hm]].
+  pose proof (ref_elem_names S xstq v d false ns Hr) as Hn.
+  exists ns. split; [exact Hr|]. split; [|exact Hn].
+  unfold add_entry. rewrite Hm. cbn [of_mres].
+  destruct (has_list_item v); [discriminate|].
+  rewrite map_set_ns_id; [reflexivity|].
+  eapply Forall_impl; [|exact Hn]. intros n [_ Hs]. exact Hs.
+Qed.
+
+(* ... for the reference a None is "no value": the part is omitted *)
+Lemma ref_entry_ok S xstq d v :
+  entry_ok S d v = true ->
+  ref_entry S xstq d v = match v with VNone => Some [] | _ => ref_elem S xstq d false v end.
+Proof.
+  unfold entry_ok, ref_entry. intro H. apply andb_true_iff in H as [Hc Hnl].
+  rewrite Hc. apply negb_true_iff in Hnl. rewrite Hnl. reflexivity.
 Qed.
 
 Lemma ref_entry_none S xstq d : ref_entry S xstq d VNone = Some [].
@@ -70,13 +74,6 @@ Proof.
   apply IH in H. lia.
 Qed.
 
-Lemma ref_seq_surplus S xstq trees hs :
-  forallb is_val hs = true -> ref_seq S xstq trees [] hs = Some [].
-Proof.
-  induction hs as [|h hs IH]; [reflexivity|]. cbn [forallb]. intro H.
-  apply andb_true_iff in H as [Hh Hr]. destruct h; [discriminate|]. cbn. apply IH, Hr.
-Qed.
-
 Lemma nth_error_map_tree (st : store) i ce :
   nth_error st i = Some ce -> nth_error (map ce_tree st) i = Some (ce_tree ce).
 Proof. intro H. rewrite nth_error_map, H. reflexivity. Qed.
@@ -102,9 +99,11 @@ Proof.
     + cbn [seq_guard] in Hg. cbn [ref_seq seq_loop].
       pose proof (skipn_nth pts n) as Hs.
       destruct (skipn n pts) as [|d rest] eqn:Hsk.
-      * (* declared parts exhausted: break; nothing but plain values follows *)
+      * (* declared parts exhausted: the plain value is skipped, the loop goes on *)
         rewrite (skipn_nil_len pts n Hn Hsk), Nat.eqb_refl.
-        exists []. split; [apply ref_seq_surplus, Hg | reflexivity].
+        assert (Hn' : n <= length pts) by exact Hn.
+        rewrite <- Hsk in Hg. destruct (IH n Hn' Hg) as [es [Hr Hl]].
+        rewrite Hsk in Hr. exists es. split; [exact Hr | exact Hl].
       * pose proof (skipn_cons_len pts n d rest Hsk) as Hlt.
         destruct (Nat.eqb (length pts) n) eqn:He; [apply Nat.eqb_eq in He; lia|].
         destruct (nth_error pts n) as [d'|] eqn:Hnth; [|discriminate].
@@ -112,11 +111,18 @@ Proof.
         assert (Hrest : rest = skipn (Datatypes.S n) pts) by congruence.
         clear Hs. subst d'. subst rest.
         apply andb_true_iff in Hg as [He' Hg].
-        destruct (mkheader_ok_l S xstq d v He') as [x [Hr [Hm _]]].
         destruct (IH (Datatypes.S n) Hlt Hg) as [es [Hr' Hl]].
-        exists (x :: es). split.
-        -- rewrite (ref_entry_ok S xstq d v x He' Hr), Hr'. reflexivity.
-        -- rewrite Hm. cbn [hbind]. rewrite Hl. reflexivity.
+        rewrite (ref_entry_ok S xstq d v He').
+        destruct (add_entry_ok_l S xstq d v He') as [xs [Hr [Hm _]]].
+        destruct v as [|t|l|ty fs].
+        -- (* None: the part is left out *)
+           exists es. split; [rewrite Hr'; reflexivity | exact Hl].
+        -- exists (xs ++ es). split; [rewrite Hr, Hr'; reflexivity|].
+           rewrite Hm. cbn [hbind]. rewrite Hl, map_app. reflexivity.
+        -- exists (xs ++ es). split; [rewrite Hr, Hr'; reflexivity|].
+           rewrite Hm. cbn [hbind]. rewrite Hl, map_app. reflexivity.
+        -- exists (xs ++ es). split; [rewrite Hr, Hr'; reflexivity|].
+           rewrite Hm. cbn [hbind]. rewrite Hl, map_app. reflexivity.
 Qed.
 
 (* ------------------------------------------------------------------ *)
@@ -142,14 +148,16 @@ Proof.
     destruct (dict_get (e_name d) dict) as [v|] eqn:Hd.
     + destruct (find (fun kv : N * value => N.eqb (fst kv) (e_name d)) dict) as [kv|]; [|discriminate]. inversion Hf; subst v.
       apply andb_true_iff in Hg as [Hv Hg]. destruct (IH Hg) as [es [Hr Hl]].
-      destruct (is_none (snd kv)) eqn:Hn.
-      * destruct (snd kv); try discriminate. exists es. split.
-        -- rewrite ref_entry_none, Hr. reflexivity.
-        -- exact Hl.
-      * cbn [orb] in Hv. destruct (mkheader_ok_l S xstq d (snd kv) Hv) as [x [Hx [Hm _]]].
-        exists (x :: es). split.
-        -- rewrite (ref_entry_ok S xstq d (snd kv) x Hv Hx), Hr. reflexivity.
-        -- destruct (snd kv); try discriminate; rewrite Hm; cbn [hbind]; rewrite Hl; reflexivity.
+      rewrite (ref_entry_ok S xstq d (snd kv) Hv).
+      destruct (add_entry_ok_l S xstq d (snd kv) Hv) as [xs [Hx [Hm _]]].
+      destruct (snd kv) as [|t|l|ty fs].
+      * exists es. split; [rewrite Hr; reflexivity | exact Hl].
+      * exists (xs ++ es). split; [rewrite Hx, Hr; reflexivity|].
+        rewrite Hm. cbn [hbind]. rewrite Hl, map_app. reflexivity.
+      * exists (xs ++ es). split; [rewrite Hx, Hr; reflexivity|].
+        rewrite Hm. cbn [hbind]. rewrite Hl, map_app. reflexivity.
+      * exists (xs ++ es). split; [rewrite Hx, Hr; reflexivity|].
+        rewrite Hm. cbn [hbind]. rewrite Hl, map_app. reflexivity.
     + destruct (find (fun kv : N * value => N.eqb (fst kv) (e_name d)) dict); [discriminate|]. destruct (IH Hg) as [es [Hr Hl]].
       exists es. split; [rewrite Hr; reflexivity | exact Hl].
 Qed.
@@ -209,13 +217,14 @@ Proof.
     + rewrite Hl. reflexivity.
 Qed.
 
-(* every entry built for a declared part carries that part's name and namespace *)
-Lemma entry_named_l S xstq d v n :
-  entry_ok S d v = true -> mkheader_setprefix S xstq d v = HOk n ->
-  xname n = e_name d /\ xnsid n = elem_ns d.
+(* every element added for a declared part (all of them, for a list-valued
+   entry) carries that part's name and namespace *)
+Lemma entry_named_l S xstq d v ns :
+  entry_ok S d v = true -> add_entry S xstq d v = HOk ns ->
+  Forall (fun n => xname n = e_name d /\ xnsid n = elem_ns d) ns.
 Proof.
-  intros He Hm. destruct (mkheader_ok_l S xstq d v He) as [x [_ [Hm' [Hn Hs]]]].
-  rewrite Hm in Hm'. inversion Hm'; subst x. split; assumption.
+  intros He Hm. destruct (add_entry_ok_l S xstq d v He) as [xs [_ [Hm' Hn]]].
+  rewrite Hm in Hm'. inversion Hm'; subst xs. exact Hn.
 Qed.
 
 (* ------------------------------------------------------------------ *)
@@ -223,6 +232,9 @@ Qed.
 (* ------------------------------------------------------------------ *)
 Definition is_fresh (r : href) : bool := match r with RFresh _ => true | RCaller _ => false end.
 Definition ref_tree (r : href) : xnode := match r with RFresh n => n | RCaller _ => XN 0%N 0%N [] None [] end.
+
+Lemma forallb_fresh_map l : forallb is_fresh (map RFresh l) = true.
+Proof. induction l as [|x l IH]; [reflexivity|exact IH]. Qed.
 
 Lemma seq_loop_fresh S xstq st pts : forall hs n r,
   seq_loop S xstq st pts n hs = HOk r -> forallb is_fresh r = true.
@@ -233,11 +245,15 @@ Proof.
     + unfold copy_of in H. destruct (nth_error st i); [|discriminate]. cbn [hbind] in H.
       destruct (seq_loop S xstq st pts n hs) as [r'|] eqn:Hl; [|discriminate].
       inversion H; subst r. cbn. eapply IH, Hl.
-    + destruct (Nat.eqb (length pts) n); [inversion H; reflexivity|].
+    + destruct (Nat.eqb (length pts) n); [eapply IH, H|].
       destruct (nth_error pts n); [|discriminate].
-      destruct (mkheader_setprefix S xstq e v); [|discriminate]. cbn [hbind] in H.
-      destruct (seq_loop S xstq st pts (Datatypes.S n) hs) as [r'|] eqn:Hl; [|discriminate].
-      inversion H; subst r. cbn. eapply IH, Hl.
+      assert (Hcase : hbind (add_entry S xstq e v) (fun h =>
+                        hbind (seq_loop S xstq st pts (Datatypes.S n) hs) (fun r => HOk (map RFresh h ++ r))) = HOk r ->
+                      forallb is_fresh r = true).
+      { intro Hv. destruct (add_entry S xstq e v) as [h|]; [|discriminate]. cbn [hbind] in Hv.
+        destruct (seq_loop S xstq st pts (Datatypes.S n) hs) as [r'|] eqn:Hl; [|discriminate].
+        inversion Hv; subst r. rewrite forallb_app, forallb_fresh_map. eapply IH, Hl. }
+      destruct v; try (apply Hcase, H). eapply IH, H.
 Qed.
 
 Lemma dict_loop_fresh S xstq dict : forall pts r,
@@ -246,12 +262,12 @@ Proof.
   induction pts as [|d pts IH]; intros r H.
   - inversion H. reflexivity.
   - cbn [dict_loop] in H.
-    assert (Hcase : forall v, hbind (mkheader_setprefix S xstq d v) (fun h =>
-                       hbind (dict_loop S xstq pts dict) (fun r => HOk (RFresh h :: r))) = HOk r ->
+    assert (Hcase : forall v, hbind (add_entry S xstq d v) (fun h =>
+                       hbind (dict_loop S xstq pts dict) (fun r => HOk (map RFresh h ++ r))) = HOk r ->
                      forallb is_fresh r = true).
-    { intros v Hv. destruct (mkheader_setprefix S xstq d v); [|discriminate]. cbn [hbind] in Hv.
+    { intros v Hv. destruct (add_entry S xstq d v) as [h|]; [|discriminate]. cbn [hbind] in Hv.
       destruct (dict_loop S xstq pts dict) as [r'|] eqn:Hl; [|discriminate].
-      inversion Hv; subst r. cbn. apply IH. reflexivity. }
+      inversion Hv; subst r. rewrite forallb_app, forallb_fresh_map. apply IH. reflexivity. }
     destruct (dict_get (e_name d) dict) as [v|]; [|apply IH, H].
     destruct v; try (eapply Hcase, H). apply IH, H.
 Qed.
@@ -491,8 +507,6 @@ Qed.
 Lemma map_ref_tree_fresh l : map ref_tree (map RFresh l) = l.
 Proof. induction l as [|x l IH]; [reflexivity|]. cbn. rewrite IH. reflexivity. Qed.
 
-Lemma forallb_fresh_map l : forallb is_fresh (map RFresh l) = true.
-Proof. induction l as [|x l IH]; [reflexivity|exact IH]. Qed.
 
 (* under the guard, the children of the Header are: the Security element (when
    configured) followed by exactly the reference entries; the store is as before *)
@@ -511,4 +525,149 @@ Proof.
   rewrite attach_fresh.
   - rewrite map_app, !map_ref_tree_fresh. reflexivity.
   - rewrite forallb_app, !forallb_fresh_map. reflexivity.
+Qed.
+
+(* ------------------------------------------------------------------ *)
+(* the repaired behaviours, one by one                                 *)
+(* ------------------------------------------------------------------ *)
+(* a plain value (text or object) that fits adds exactly one element *)
+Lemma plain_value_one_element_l S xstq d v :
+  conforming S d v = true -> is_list v = false -> is_none v = false ->
+  exists n, ref_elem S xstq d false v = Some [n] /\ add_entry S xstq d v = HOk [n] /\
+            xname n = e_name d /\ xnsid n = elem_ns d.
+Proof.
+  intros Hc Hl Hn.
+  assert (He : entry_ok S d v = true).
+  { unfold entry_ok. rewrite Hc. destruct v; try discriminate; reflexivity. }
+  destruct (add_entry_ok_l S xstq d v He) as [ns [Hr [Hm Hf]]].
+  assert (Hone : exists n, ns = [n]).
+  { destruct v as [|t|l|ty fs]; try discriminate.
+    - cbn in Hr. inversion Hr. eexists; reflexivity.
+    - rewrite ref_elem_obj in Hr.
+      destruct (real_type S d ty); [|discriminate].
+      destruct (decls_of _ _); [|discriminate].
+      inversion Hr. eexists; reflexivity. }
+  destruct Hone as [n Hn']. subst ns. exists n.
+  split; [exact Hr|]. split; [exact Hm|]. inversion Hf; subst. assumption.
+Qed.
+
+Lemma item_entry_ok S d l x :
+  entry_ok S d (VList l) = true -> In x l -> entry_ok S d x = true.
+Proof.
+  unfold entry_ok. intros H Hx. apply andb_true_iff in H as [Hc Hn].
+  rewrite conforming_list, forallb_forall in Hc. rewrite (Hc x Hx). cbn [has_list_item] in Hn.
+  apply negb_true_iff in Hn.
+  assert (Hl : is_list x = false).
+  { destruct (is_list x) eqn:E; [|reflexivity].
+    assert (existsb is_list l = true) by (apply existsb_exists; exists x; split; assumption). congruence. }
+  destruct x; try discriminate; reflexivity.
+Qed.
+
+(* a list-valued entry adds, in order, what each of its items adds on its own *)
+Lemma list_entry_per_item_l S xstq d l :
+  entry_ok S d (VList l) = true ->
+  exists per_item,
+    Forall2 (fun x ns => ref_elem S xstq d false x = Some ns /\ add_entry S xstq d x = HOk ns) l per_item /\
+    add_entry S xstq d (VList l) = HOk (concat per_item) /\
+    ref_elem S xstq d false (VList l) = Some (concat per_item).
+Proof.
+  intro He.
+  assert (Hitems : exists per_item,
+            Forall2 (fun x ns => ref_elem S xstq d false x = Some ns /\ add_entry S xstq d x = HOk ns) l per_item /\
+            oconcat (map (ref_elem S xstq d false) l) = Some (concat per_item)).
+  { assert (Hall : forall x, In x l -> entry_ok S d x = true) by (intros x Hx; eapply item_entry_ok; eauto).
+    clear He. induction l as [|x l IH].
+    - exists []. split; [constructor|reflexivity].
+    - destruct IH as [pi [Hf Ho]]; [intros y Hy; apply Hall; right; exact Hy|].
+      destruct (add_entry_ok_l S xstq d x (Hall x (or_introl eq_refl))) as [ns [Hr [Hm _]]].
+      exists (ns :: pi). split; [constructor; [split; assumption | exact Hf]|].
+      cbn [map oconcat concat]. rewrite Hr, Ho. reflexivity. }
+  destruct Hitems as [pi [Hf Ho]]. exists pi. split; [exact Hf|].
+  destruct (add_entry_ok_l S xstq d (VList l) He) as [ns [Hr [Hm _]]].
+  rewrite ref_elem_list, Ho in Hr. inversion Hr; subst ns.
+  split; [exact Hm|]. rewrite ref_elem_list. exact Ho.
+Qed.
+
+(* a positional None uses up its declared part and sends nothing for it *)
+Lemma seq_loop_shift S xstq st d pts : forall hs n,
+  seq_loop S xstq st (d :: pts) (Datatypes.S n) hs = seq_loop S xstq st pts n hs.
+Proof.
+  induction hs as [|h hs IH]; intro n; [reflexivity|].
+  destruct h as [i|v]; cbn [seq_loop].
+  - rewrite IH. reflexivity.
+  - cbn [length nth_error Nat.eqb]. rewrite IH, (IH (Datatypes.S n)). reflexivity.
+Qed.
+
+Lemma positional_none_leaves_part_out_l : forall S xstq st d pts wsse hs,
+  headercontent S xstq st (d :: pts) wsse (SHSeq (HVal VNone :: hs)) =
+  headercontent S xstq st pts wsse (SHSeq hs).
+Proof.
+  intros. unfold headercontent. cbn [normalise].
+  destruct (sec_content wsse) as [[c s]|e]; [|reflexivity]. cbn [hbind fst snd].
+  cbn [seq_loop length Nat.eqb nth_error]. rewrite seq_loop_shift.
+  destruct hs as [|h hs]; [|reflexivity].
+  cbn. rewrite app_nil_r. reflexivity.
+Qed.
+
+(* once the declared parts are used up, plain values add nothing and the
+   ready-made elements that follow are still copied, in order *)
+Definition elems_of (st : store) (hs : list hval) : list xnode :=
+  flat_map (fun h => match h with
+                     | HElem i => match nth_error st i with Some ce => [ce_tree ce] | None => [] end
+                     | HVal _ => []
+                     end) hs.
+Definition elems_in_store (st : store) (hs : list hval) : bool :=
+  forallb (fun h => match h with HElem i => Nat.ltb i (length st) | HVal _ => true end) hs.
+
+Lemma surplus_values_skipped_elements_kept_l : forall S xstq st pts hs,
+  elems_in_store st hs = true ->
+  seq_loop S xstq st pts (length pts) hs = HOk (map RFresh (elems_of st hs)).
+Proof.
+  intros S xstq st pts. induction hs as [|h hs IH]; intro H; [reflexivity|].
+  cbn [elems_in_store forallb] in H. apply andb_true_iff in H as [Hh H].
+  destruct h as [i|v]; cbn [seq_loop elems_of flat_map].
+  - apply Nat.ltb_lt in Hh. unfold copy_of.
+    destruct (nth_error st i) as [ce|] eqn:Hce; [|apply nth_error_None in Hce; lia].
+    cbn [hbind]. rewrite (IH H). reflexivity.
+  - rewrite Nat.eqb_refl. apply IH, H.
+Qed.
+
+(* ------------------------------------------------------------------ *)
+(* the function before the repairs, all switches off, IS the current one *)
+(* ------------------------------------------------------------------ *)
+Lemma add_entry_repaired S xstq d v : add_entry_q S xstq repaired d v = add_entry S xstq d v.
+Proof.
+  unfold add_entry_q, add_entry. destruct (of_mres (marshal_elem S xstq d false v)); [|reflexivity].
+  destruct v; cbn; try reflexivity. rewrite Bool.orb_false_r. reflexivity.
+Qed.
+
+Lemma seq_loop_repaired S xstq st pts : forall hs n,
+  seq_loop_q S xstq st repaired pts n hs = seq_loop S xstq st pts n hs.
+Proof.
+  induction hs as [|h hs IH]; intro n; [reflexivity|].
+  destruct h as [i|v]; cbn [seq_loop_q seq_loop].
+  - rewrite IH. reflexivity.
+  - rewrite IH, (IH (Datatypes.S n)). change (q_break repaired) with false. change (q_none repaired) with false.
+    destruct (Nat.eqb (length pts) n); [reflexivity|].
+    destruct (nth_error pts n) as [d|]; [|reflexivity].
+    rewrite add_entry_repaired. destruct v; reflexivity.
+Qed.
+
+Lemma dict_loop_repaired S xstq dict : forall pts,
+  dict_loop_q S xstq repaired pts dict = dict_loop S xstq pts dict.
+Proof.
+  induction pts as [|d pts IH]; [reflexivity|].
+  cbn [dict_loop_q dict_loop]. rewrite IH.
+  destruct (dict_get (e_name d) dict) as [v|]; [|reflexivity].
+  rewrite add_entry_repaired. reflexivity.
+Qed.
+
+Lemma repaired_is_current_l : forall S xstq st pts wsse sh,
+  headercontent_q S xstq st repaired pts wsse sh = headercontent S xstq st pts wsse sh.
+Proof.
+  intros. unfold headercontent_q, headercontent.
+  destruct (sec_content wsse) as [c0|e]; [|reflexivity]. cbn [hbind].
+  destruct (normalise sh) as [h|l|l]; [reflexivity| |].
+  - destruct l; [reflexivity|]. rewrite seq_loop_repaired. reflexivity.
+  - destruct l; [reflexivity|]. rewrite dict_loop_repaired. reflexivity.
 Qed.
